@@ -346,6 +346,18 @@ func genC16(c *Ctx) {
 	for i := 0; i < nSess; i++ {
 		a := assets[r.Intn(len(assets))]
 		cf := cfgs[r.Intn(len(cfgs))]
+		if i%6 == 5 {
+			// (bundled assets: their video segments are larger than the 32 KiB pieces the HTTP client reads)
+			if b := findVAsset(r.PickS("testpic_2s", "testpic_6s", "testpic_8s", "bbb_hevc_ac3_8s")); b != nil {
+				a = b
+			}
+		}
+		if i%6 == 5 && a.SegmentDurMS%1000 == 0 {
+			// chunked transfer (low-latency mode of the sender) without availability offset: every segment is one chunk,
+			// large ones are read from the sender in several pieces
+			cf = r.PickS("chunkdur_", "segtimeline_1,chunkdur_") + strconv.Itoa(a.SegmentDurMS/1000)
+			c.Count("session.chunked")
+		}
 		startS := 0
 		if strings.Contains(cf, "start_60") {
 			startS = 60
